@@ -8,3 +8,4 @@ import SmtpV.Props.C06
 #print axioms SmtpV.Props.C06.C06_accepted_chunk_bounded
 #print axioms SmtpV.Props.C06.C06_no_delivery_over_limit
 #print axioms SmtpV.Props.C06.C06_accounting_invariant
+#print axioms SmtpV.Props.C06.C06_eof_is_sticky
